@@ -1,5 +1,5 @@
 """Which units and lemmas serve which property (DESIGN §4/§5)."""
-from . import sm, ps, ef, z, mainspec
+from . import sm, ps, ef, z, mainspec, dynrf
 
 A_IDEAL = 'A-IDEAL: float/double arithmetic treated as real arithmetic, source literals exact (rounding not modelled)'
 A_SUMCOMM = 'L-SUMCOMM: interchange of finite double sums (column sums = 1 => total conserved) not machine-checked'
@@ -11,7 +11,7 @@ NOT_APPLICABLE = {
     'C11': 'relation between two complete program executions through an HDF5 file; no function contract expresses it (DESIGN §6)',
     'C20': 'behaviour is produced inside boost::program_options; a contract proof would be about an axiomatisation of boost (DESIGN §6)',
 }
-for _p in ('C05 C10 C12 C13 C14 C19').split():
+for _p in ('C05 C10 C12 C13 C14').split():
     NOT_APPLICABLE[_p] = PENDING
 
 SM_KICK = [sm.CalcCoefficiants, sm.UpdateSM, sm.KickMapApply, sm.SourceMapCtor, sm.SourceMapCtor7, sm.KickMapCtor,
@@ -160,6 +160,19 @@ PROPERTIES = {
                       'uninitialised reads (tables are written before use by construction order, checked only where a unit reads what it wrote)',
                       'zero-energy bin outside the grid for the cubic Fokker-Planck stencil (precondition zerobin_inside)'],
         'explanation': 'automatic safety obligations of all units',
+        'technique': TECH,
+    },
+    'C19': {
+        'units': [dynrf.CalcModulation, dynrf.DynRFLinearCtor, dynrf.DynRFSinCtor, dynrf.DynCalcKick, dynrf.DynApply, dynrf.GetPastModulation,
+                  sm.RFCalcKick, sm.RFKickMapLinearCtor, sm.RFKickMapSinCtor],
+        'lemmas': [dynrf.lemmas_c19],
+        'level': 'other',
+        'claim': 'both dynamic constructors leave the RF sub-object in exactly the state of the static constructor of the same model (clang-resolved base constructor is what is executed); with all amplitudes zero every queue entry is (synchronous phase, 1), '
+                 'so every kick equals the static kick; apply() computes the kick from the front entry, records exactly that entry and consumes it; getPastModulation returns all records and empties the list; '
+                 'pure sinusoidal modulation has the configured amplitude and angular step',
+        'assumptions': [A_IDEAL, A_LIB, DROPS, 'random draws are unconstrained reals', 'std::queue / std::vector models'],
+        'uncovered': ['that main flushes the records at every output step and once at the end (control skeleton of main)', 'HDF5File::appendRFKicks (library calls)'],
+        'explanation': 'constructor-state and queue contracts of DynamicRFKickMap',
         'technique': TECH,
     },
 }
